@@ -10,6 +10,9 @@ violation): the App attributes `_sinks`, `_static_routes`,
 R10: every default responder (the targets of App._default_responder_* of both App classes, the nested defs the two factories
 return) is (req, resp, **kwargs).  R11: the 404 / 400 defaults never return, let only their own error class escape (E5
 summary over callees), WSGI and ASGI twins alike.
+R12: the matcher add_sink stores, evaluated on the two documented entrances of `prefix` (str / pattern object): a pattern object is
+stored as it is (identity, flags kept), a str is re.compile()d.  R4 also: the list the 405 closures keep is a materialised sequence
+on every path.  R5: the responder name is evaluated through the locals bound on the path (pieces: literal / suffix / opaque).
 Roles inside those functions are found by def-use from contract positions
 (return-tuple positions of `_get_responder`, parameter positions, the 3-tuple
 shape `(matcher, object, is_sink)` of the fallback table).
@@ -18,6 +21,7 @@ shape `(matcher, object, is_sink)` of the fallback table).
 from __future__ import annotations
 
 import ast
+import re
 from typing import Callable, Dict, FrozenSet, Iterable, List, Optional, Set, Tuple
 
 from .. import flow
@@ -1288,6 +1292,62 @@ def _closure_language(run, g: Func, param0: str, joined: Set[str]):
     return flow.determinise(nfa), cfg
 
 
+_MATERIALISE = ('list', 'tuple', 'sorted')
+_ONE_SHOT = ('iter', 'reversed')
+_ONE_SHOT_OPAQUE = ('map', 'filter', 'zip', 'enumerate')
+
+
+def _allow_value_shape(v, lst: str):
+    """(kind, comprehension|None, role) of a value bound to the Allow list:
+    kind 'seq' (list comprehension, list()/tuple()/sorted() of anything, a
+    slice copy) or 'iter' (generator expression, iter()/reversed()/map()/
+    filter()/...: drained by the first consumer); role 'primary' (a
+    comprehension, possibly wrapped: the content), 'copy' (re-wrapping of the
+    list variable itself) or 'opaque' (content not read).  None: not read."""
+    if not isinstance(v, ast.expr):
+        return None
+    if isinstance(v, ast.ListComp):
+        return ('seq', v, 'primary')
+    if isinstance(v, ast.GeneratorExp):
+        return ('iter', v, 'primary')
+    if isinstance(v, ast.Subscript) and isinstance(v.value, ast.Name) and v.value.id == lst and isinstance(v.slice, ast.Slice) \
+            and v.slice.lower is None and v.slice.upper is None and v.slice.step is None:
+        return ('seq', None, 'copy')
+    if isinstance(v, ast.Call) and isinstance(v.func, ast.Attribute) and v.func.attr == 'copy' and not v.args and not v.keywords \
+            and isinstance(v.func.value, ast.Name) and v.func.value.id == lst:
+        return ('seq', None, 'copy')
+    if isinstance(v, ast.Call) and isinstance(v.func, ast.Name) and not any(isinstance(a, ast.Starred) for a in v.args):
+        fn = v.func.id
+        if fn in _ONE_SHOT_OPAQUE:
+            return ('iter', None, 'opaque')
+        if fn in _MATERIALISE + _ONE_SHOT and len(v.args) == 1 and (not v.keywords or fn == 'sorted' and all(k.arg == 'reverse' for k in v.keywords)):
+            kind = 'seq' if fn in _MATERIALISE else 'iter'
+            a = v.args[0]
+            if isinstance(a, ast.Name) and a.id == lst:
+                return (kind, None, 'copy')
+            inner = _allow_value_shape(a, lst)
+            if inner is None:
+                return None
+            return (kind, inner[1], inner[2])
+    return None
+
+
+def _factory_snapshots_param(fna: Func) -> bool:
+    """The 405 factory takes a list()/tuple()/sorted() copy of its first
+    parameter once in its own body and no closure mentions the parameter
+    itself: whatever iterable it is handed is read exactly once."""
+    prm = fna.params()
+    if not prm:
+        return False
+    prm = prm[0]
+    if any(isinstance(x, ast.Name) and x.id == prm for g in fna.nested.values() for x in ast.walk(g.node)):
+        return False
+    uses = [x for x in walk_self(fna.node) if isinstance(x, ast.Name) and x.id == prm and isinstance(x.ctx, ast.Load)]
+    snaps = [n for n in walk_self(fna.node) if isinstance(n, ast.Assign) and isinstance(n.value, ast.Call) and isinstance(n.value.func, ast.Name)
+             and n.value.func.id in _MATERIALISE and len(n.value.args) == 1 and n.value.args[0] in uses]
+    return len(uses) == 1 and len(snaps) == 1
+
+
 def r4_allow(run):
     p = run.project
     f = p.func(UTIL + '.set_default_responders')
@@ -1314,33 +1374,71 @@ def r4_allow(run):
     if not ocall.args or not isinstance(ocall.args[0], ast.Name) or not ncall.args or not isinstance(ncall.args[0], ast.Name):
         raise UnknownIdiom('%s: factories are not called with a local list' % f.qual)
     lst = ocall.args[0].id
-    # the list is built once from the method map, filtering the meta methods
-    ldefs = _defs_of(cfg, lst)
-    (ldn, lval) = single(list(ldefs.items()), 'definition of the Allow list', f.qual)
-    comp = lval
-    if isinstance(comp, ast.Call) and isinstance(comp.func, ast.Name) and comp.func.id in ('list', 'sorted') and comp.args:
-        comp = comp.args[0]
-    if not isinstance(comp, (ast.ListComp, ast.GeneratorExp)) or len(comp.generators) != 1:
-        raise UnknownIdiom('%s: Allow list is not a single comprehension: %s' % (f.qual, short(lval, 80)))
-    gen = comp.generators[0]
-    src_ok = any(isinstance(x, ast.Name) and x.id == mm for x in ast.walk(gen.iter))
-    elt_ok = isinstance(comp.elt, ast.Name) and isinstance(gen.target, ast.Name) and comp.elt.id == gen.target.id
-    run.check(src_ok and elt_ok, 'the Allow list enumerates the keys of the method map (the implemented methods), unchanged', f, lval)
+    # every definition of the list: a comprehension over the method map ('primary', the content), or a copy / re-wrapping of the
+    # list itself (`lst = list(lst)`); each one is a materialised sequence or a one-shot iterator
+    ldefs = {i: v for i, v in _defs_of(cfg, lst).items() if not isinstance(v, ast.AugAssign)}
+    if not ldefs:
+        raise AnchorError('%s: no definition of the Allow list %s' % (f.qual, lst))
+    shapes = {}
+    ctx_of: Dict[int, Tuple[str, Func, ast.AST]] = {}     # def -> (name of the method map, function the expression lives in, expression)
+    for i, v in ldefs.items():
+        ctx_of[i] = (mm, f, v)
+        sh = _allow_value_shape(v, lst)
+        if sh is None and isinstance(v, ast.Call) and not v.keywords and len(v.args) == 1 and isinstance(v.args[0], ast.Name) and v.args[0].id == mm:
+            # a package-level helper handed the method map whose body is one `return <expr>`: its summary is inlined
+            h = p.callee(f, v)
+            if isinstance(h, Func) and h.cls is None and h.parent is None and not h.is_async and not h.decorators and len(h.params()) == 1:
+                body = [x for x in h.node.body if not (isinstance(x, ast.Expr) and isinstance(x.value, ast.Constant))]
+                if len(body) == 1 and isinstance(body[0], ast.Return) and body[0].value is not None:
+                    sh = _allow_value_shape(body[0].value, None)
+                    ctx_of[i] = (h.params()[0], h, body[0].value)
+        if sh is None:
+            raise UnknownIdiom('%s: Allow list defined by %s' % (f.qual, short(v, 80)))
+        shapes[i] = sh
+    primaries = [(i, shapes[i][1], ctx_of[i][2]) for i in sorted(shapes) if shapes[i][2] == 'primary']
+    # the 405 closures keep the value for the lifetime of the route and read it on every request: it has to be a sequence
+    # (unless the factory itself takes a list()/tuple() snapshot once and the closures read only that)
+    reach = reaching_defs(cfg, ldefs, {cfg.entry: frozenset()}).get(nn.id, frozenset())
+    if not reach:
+        raise UnknownIdiom('%s: no definition of %s reaches %s' % (f.qual, lst, short(ncall, 60)))
+    fac_snapshot = _factory_snapshots_param(fna)
+    for i in sorted(reach):
+        kind = shapes[i][0]
+        path = None
+        if kind != 'seq' and not fac_snapshot:
+            path = flow.find_path(cfg, [y for (y, l) in cfg.succ[i] if l != 'exc'], [nn.id], avoid_nodes=[j for j in ldefs if j != nn.id], edge_filter=flow.no_exc)
+        run.check(kind == 'seq' or fac_snapshot,
+                  'the method list handed to create_method_not_allowed, which its closures keep and read on every 405 of the route, is a materialised '
+                  'sequence on every path (list / tuple / sorted(...)), never a generator expression or another one-shot iterator', f, ldefs[i],
+                  where=f.loc(cfg.node(i).ast), witness=flow.describe_path(cfg, [i] + path) if path else None,
+                  runtime_witness='a resource with its own on_options: the first 405 of the route lists the methods, every later one answers "Allow: " '
+                                  '(the first \', \'.join() drained the generator the closure holds)')
+    if not primaries:
+        raise UnknownIdiom('%s: the content of the Allow list is not a comprehension over the method map: %s' % (
+            f.qual, '; '.join(short(v, 60) for v in ldefs.values())))
     meta = p.fold(p.module('falcon.constants'), ast.Name('_META_METHODS', ast.Load()))
     if meta is UNKNOWN or not meta:
         raise AnchorError('falcon.constants._META_METHODS does not fold to a non-empty list')
-    filt = False
-    extra = []
-    for cond in gen.ifs:
-        if isinstance(cond, ast.Compare) and len(cond.ops) == 1 and isinstance(cond.ops[0], ast.NotIn) and isinstance(cond.left, ast.Name) and cond.left.id == gen.target.id:
-            v = p.fold(f.module, cond.comparators[0], None, f)
-            if v is not UNKNOWN and set(v) == set(meta):
-                filt = True
-                continue
-        extra.append(cond)
-    run.check(filt, 'meta methods (WEBSOCKET) are filtered out of the Allow list', f, lval,
-              runtime_witness='Allow: ..., WEBSOCKET on a 405 / OPTIONS response')
-    run.check(not extra, 'no other method is filtered out of the Allow list', f, extra[0] if extra else lval)
+    for (_i, comp, lval) in primaries:
+        cmm, cf = ctx_of[_i][0], ctx_of[_i][1]
+        if len(comp.generators) != 1:
+            raise UnknownIdiom('%s: Allow list is not a single comprehension: %s' % (f.qual, short(lval, 80)))
+        gen = comp.generators[0]
+        src_ok = any(isinstance(x, ast.Name) and x.id == cmm for x in ast.walk(gen.iter))
+        elt_ok = isinstance(comp.elt, ast.Name) and isinstance(gen.target, ast.Name) and comp.elt.id == gen.target.id
+        run.check(src_ok and elt_ok, 'the Allow list enumerates the keys of the method map (the implemented methods), unchanged', cf, lval)
+        filt = False
+        extra = []
+        for cond in gen.ifs:
+            if isinstance(cond, ast.Compare) and len(cond.ops) == 1 and isinstance(cond.ops[0], ast.NotIn) and isinstance(cond.left, ast.Name) and cond.left.id == gen.target.id:
+                v = p.fold(cf.module, cond.comparators[0], None, cf)
+                if v is not UNKNOWN and set(v) == set(meta):
+                    filt = True
+                    continue
+            extra.append(cond)
+        run.check(filt, 'meta methods (WEBSOCKET) are filtered out of the Allow list', cf, lval,
+                  runtime_witness='Allow: ..., WEBSOCKET on a 405 / OPTIONS response')
+        run.check(not extra, 'no other method is filtered out of the Allow list', cf, extra[0] if extra else lval)
     # path that installs the automatic OPTIONS responder
 
     def is_opt_missing(e):
@@ -1531,26 +1629,197 @@ def r4_allow(run):
 # R5 suffix and kwargs
 # ---------------------------------------------------------------------------
 
-def _suffix_kind(e, suffix: str) -> str:
-    """'plain' | 'sfx' | raises UnknownIdiom."""
-    if not any(isinstance(x, ast.Name) and x.id == suffix for x in ast.walk(e)):
-        return 'plain'
-    if isinstance(e, ast.BinOp) and isinstance(e.op, ast.Add):
-        r = e.right
-        if isinstance(r, ast.Name) and r.id == suffix:
-            l = e.left
-            tail = l.right if isinstance(l, ast.BinOp) and isinstance(l.op, ast.Add) else l
-            if isinstance(tail, ast.Constant) and isinstance(tail.value, str) and tail.value.endswith('_'):
-                return 'sfx'
-        if isinstance(r, ast.BinOp) and isinstance(r.op, ast.Add) and isinstance(r.left, ast.Constant) and r.left.value == '_' \
-                and isinstance(r.right, ast.Name) and r.right.id == suffix and _suffix_kind(e.left, suffix) == 'plain':
-            return 'sfx'
-    if isinstance(e, ast.JoinedStr) and len(e.values) >= 2:
-        a, b = e.values[-2], e.values[-1]
-        if isinstance(a, ast.Constant) and str(a.value).endswith('_') and isinstance(b, ast.FormattedValue) and isinstance(b.value, ast.Name) and b.value.id == suffix \
-                and not any(isinstance(x, ast.Name) and x.id == suffix for v in e.values[:-1] for x in ast.walk(v)):
-            return 'sfx'
-    raise UnknownIdiom('responder-name expression %s uses the suffix in a form the rule does not know' % short(e))
+class _NameEval:
+    """Abstract value of a responder-name expression UNDER THE ASSUMPTION THAT THE
+    SUFFIX IS TRUTHY: a set of alternatives, each a tuple of pieces
+    ('c', text) literal text | ('s',) the suffix value | ('o', text) a string the
+    suffix has no part in (`method.lower()`, another parameter, ...).  Read:
+    string constants, the suffix parameter, locals bound by plain / augmented
+    assignments (looked up in the per-path environment), `+`, f-strings,
+    `'..{}..'.format(...)`, `'..%s..' % (...)`, conditional expressions whose
+    test is decided (or left open) by the suffix class.  Anything else that
+    involves the suffix is UnknownIdiom."""
+
+    CAP_ALTS = 8
+    CAP_PIECES = 12
+
+    def __init__(self, suffix: str, tracked: Set[str]):
+        self.suffix = suffix
+        self.tracked = tracked
+
+    def involves_suffix(self, e, env) -> bool:
+        for x in ast.walk(e):
+            if isinstance(x, ast.Name):
+                if x.id == self.suffix:
+                    return True
+                if x.id in self.tracked and any(pc == ('s',) for alt in (env.get(x.id) or ()) for pc in alt):
+                    return True
+        return False
+
+    @staticmethod
+    def _norm(pieces) -> tuple:
+        out: List[tuple] = []
+        for pc in pieces:
+            if pc[0] == 'c':
+                if not pc[1]:
+                    continue
+                if out and out[-1][0] == 'c':
+                    out[-1] = ('c', out[-1][1] + pc[1])
+                    continue
+            out.append(pc)
+        return tuple(out)
+
+    def _cat(self, parts, e) -> FrozenSet[tuple]:
+        acc: Set[tuple] = {()}
+        for alts in parts:
+            acc = {self._norm(a + b) for a in acc for b in alts}
+            if len(acc) > self.CAP_ALTS or any(len(a) > self.CAP_PIECES for a in acc):
+                raise UnknownIdiom('responder-name expression %s grows beyond what the rule follows' % short(e))
+        return frozenset(acc)
+
+    def _opaque(self, e, env) -> FrozenSet[tuple]:
+        if self.involves_suffix(e, env):
+            raise UnknownIdiom('responder-name expression %s uses the suffix in a form the rule does not know' % short(e))
+        return frozenset({(('o', short(e)),)})
+
+    def ev(self, e, env) -> FrozenSet[tuple]:
+        if isinstance(e, ast.Constant) and isinstance(e.value, str):
+            return frozenset({self._norm([('c', e.value)])})
+        if isinstance(e, ast.Name):
+            if e.id == self.suffix:
+                return frozenset({(('s',),)})
+            if e.id in self.tracked:
+                v = env.get(e.id)
+                return v if v is not None else frozenset({(('o', e.id),)})
+            return frozenset({(('o', e.id),)})
+        if isinstance(e, ast.BinOp) and isinstance(e.op, ast.Add):
+            return self._cat([self.ev(e.left, env), self.ev(e.right, env)], e)
+        if isinstance(e, ast.IfExp):
+            out: Set[tuple] = set()
+            if 'truthy' in _suffix_classes(e.test, True, self.suffix):
+                out |= self.ev(e.body, env)
+            if 'truthy' in _suffix_classes(e.test, False, self.suffix):
+                out |= self.ev(e.orelse, env)
+            if not out or len(out) > self.CAP_ALTS:
+                raise UnknownIdiom('responder-name expression %s' % short(e))
+            return frozenset(out)
+        if isinstance(e, ast.JoinedStr):
+            parts = []
+            for v in e.values:
+                if isinstance(v, ast.FormattedValue):
+                    parts.append(self.ev(v.value, env) if v.conversion == -1 and v.format_spec is None else self._opaque(v, env))
+                else:
+                    parts.append(self.ev(v, env))
+            return self._cat(parts, e)
+        if isinstance(e, ast.Call) and isinstance(e.func, ast.Attribute) and e.func.attr == 'format' \
+                and isinstance(e.func.value, ast.Constant) and isinstance(e.func.value.value, str) \
+                and not any(isinstance(a, ast.Starred) for a in e.args) and all(k.arg for k in e.keywords):
+            import string
+            kw = {k.arg: k.value for k in e.keywords}
+            parts, auto = [], 0
+            try:
+                fields = list(string.Formatter().parse(e.func.value.value))
+            except ValueError:
+                return self._opaque(e, env)
+            for lit, name, spec, conv in fields:
+                parts.append(frozenset({self._norm([('c', lit)])}))
+                if name is None:
+                    continue
+                if name == '':
+                    name, auto = str(auto), auto + 1
+                arg = e.args[int(name)] if name.isdigit() and int(name) < len(e.args) else kw.get(name)
+                if arg is None:
+                    return self._opaque(e, env)
+                parts.append(self._opaque(arg, env) if spec or conv else self.ev(arg, env))
+            return self._cat(parts, e)
+        if isinstance(e, ast.BinOp) and isinstance(e.op, ast.Mod) and isinstance(e.left, ast.Constant) and isinstance(e.left.value, str):
+            args = list(e.right.elts) if isinstance(e.right, ast.Tuple) else [e.right]
+            chunks = re.split(r'(%[^a-zA-Z%]*[a-zA-Z%])', e.left.value)
+            parts, i = [], 0
+            for ch in chunks:
+                if ch == '%%':
+                    parts.append(frozenset({(('c', '%'),)}))
+                elif ch == '%s' and i < len(args) and not isinstance(args[i], ast.Starred):
+                    parts.append(self.ev(args[i], env))
+                    i += 1
+                elif ch.startswith('%') and len(ch) > 1:
+                    return self._opaque(e, env)
+                else:
+                    parts.append(frozenset({self._norm([('c', ch)])}))
+            if i != len(args):
+                return self._opaque(e, env)
+            return self._cat(parts, e)
+        return self._opaque(e, env)
+
+    @staticmethod
+    def verdict(alt: tuple) -> str:
+        """'sfx' the name ends in '_' + suffix | 'bad' the suffix is absent or glued on without the '_' separator
+        | raises UnknownIdiom for a placement the rule does not judge."""
+        n = sum(1 for pc in alt if pc == ('s',))
+        if n == 0:
+            return 'bad'
+        if n == 1 and alt[-1] == ('s',):
+            if len(alt) >= 2 and alt[-2][0] == 'c':
+                return 'sfx' if alt[-2][1].endswith('_') else 'bad'
+            if len(alt) == 1:
+                return 'bad'
+        raise UnknownIdiom('responder name built as %s: placement of the suffix not judged' % ' + '.join(
+            repr(pc[1]) if pc[0] == 'c' else '<suffix>' if pc[0] == 's' else pc[1] for pc in alt))
+
+
+def _name_bindings(f: Func, suffix: str, roots: Iterable[ast.AST]):
+    """Locals that take part in the responder-name expressions `roots`:
+    (tracked, stmts) where stmts are the plain / augmented assignments binding
+    them.  A local of that set bound in any other way (loop target, unpacking,
+    walrus, with/except) is left opaque provided its binder does not involve
+    the suffix."""
+    binds: Dict[str, List[ast.AST]] = {}
+    other: Dict[str, List[ast.AST]] = {}
+
+    def tname(t):
+        return t.id if isinstance(t, ast.Name) else None
+
+    for s in walk_self(f.node):
+        if isinstance(s, (ast.ListComp, ast.SetComp, ast.DictComp, ast.GeneratorExp)):
+            continue
+        if isinstance(s, ast.Assign) and len(s.targets) == 1 and tname(s.targets[0]):
+            binds.setdefault(s.targets[0].id, []).append(s)
+        elif isinstance(s, ast.AnnAssign) and tname(s.target):
+            if s.value is not None:
+                binds.setdefault(s.target.id, []).append(s)
+        elif isinstance(s, ast.AugAssign) and tname(s.target):
+            binds.setdefault(s.target.id, []).append(s)
+        elif isinstance(s, (ast.Assign, ast.For, ast.AsyncFor, ast.With, ast.AsyncWith, ast.NamedExpr, ast.ExceptHandler)):
+            tg: List[ast.AST] = []
+            if isinstance(s, ast.Assign):
+                tg = list(s.targets)
+            elif isinstance(s, (ast.For, ast.AsyncFor, ast.NamedExpr)):
+                tg = [s.target]
+            elif isinstance(s, (ast.With, ast.AsyncWith)):
+                tg = [i.optional_vars for i in s.items if i.optional_vars is not None]
+            elif s.name:
+                other.setdefault(s.name, []).append(s)
+            src = s.value if isinstance(s, (ast.Assign, ast.NamedExpr)) else s.iter if isinstance(s, (ast.For, ast.AsyncFor)) else s
+            for t in tg:
+                for x in ast.walk(t):
+                    if isinstance(x, ast.Name) and isinstance(x.ctx, ast.Store):
+                        other.setdefault(x.id, []).append(src)
+    tracked: Set[str] = set()
+    work = [x.id for r in roots for x in ast.walk(r) if isinstance(x, ast.Name)]
+    while work:
+        nm = work.pop()
+        if nm in tracked or nm == suffix:
+            continue
+        if nm in other:
+            if nm in binds or any(isinstance(x, ast.Name) and x.id == suffix for src in other[nm] if isinstance(src, ast.AST) for x in ast.walk(src)):
+                raise UnknownIdiom('%s: local %s of the responder name is bound by a construct the rule does not read' % (f.qual, nm))
+            continue
+        if nm in binds:
+            tracked.add(nm)
+            for s in binds[nm]:
+                work.extend(x.id for x in ast.walk(s.value) if isinstance(x, ast.Name))
+    stmts = [s for nm in sorted(tracked) for s in binds[nm]]
+    return tracked, stmts
 
 
 def _suffix_classes(test, truth: bool, suffix: str) -> FrozenSet[str]:
@@ -1844,61 +2113,61 @@ def r5_suffix_kwargs(run):
         if len(ga.args) < 2:
             raise UnknownIdiom('getattr shape %s' % short(ga))
         namee = ga.args[1]
-        nvar = namee.id if isinstance(namee, ast.Name) else None
+        tracked, bstmts = _name_bindings(f, suffix, [namee])
+        nev = _NameEval(suffix, tracked)
+        order = sorted(tracked)
 
-        def lab(n, nvar=nvar, ga=ga):
+        def lab(n, ga=ga, bstmts=bstmts):
             out = []
-            if n.kind == 'stmt' and nvar is not None:
-                s = n.ast
-                if isinstance(s, ast.Assign) and any(isinstance(t, ast.Name) and t.id == nvar for t in s.targets):
-                    out.append('N_' + _suffix_kind(s.value, suffix))
-                elif isinstance(s, ast.AugAssign) and isinstance(s.target, ast.Name) and s.target.id == nvar:
-                    k = _suffix_kind(ast.BinOp(ast.Name(nvar, ast.Load()), s.op, s.value), suffix) if isinstance(s.op, ast.Add) else None
-                    if k is None:
-                        raise UnknownIdiom('augmented assignment %s' % short(s))
-                    out.append('N_aug_' + k)
+            if n.kind == 'stmt':
+                for i, s in enumerate(bstmts):
+                    if n.ast is s:
+                        out.append('A%d' % i)
             if any(c is ga for c in n.calls()):
-                if nvar is None:
-                    out.insert(0, '^GET_' + _suffix_kind(namee, suffix))
-                else:
-                    out.insert(0, '^GET')
+                out.insert(0, '^GET')
             return out
 
-        def delta(st, l):
-            name, known = st
-            if l == 'N_plain':
-                return ('plain', known)
-            if l == 'N_sfx':
-                return ('sfx', known)
-            if l == 'N_aug_sfx':
-                return ('sfx', known)
-            if l == 'N_aug_plain':
-                return (name, known)
-            if l in ('GET', 'GET_plain', 'GET_sfx'):
-                nm = name if l == 'GET' else l[4:]
-                if nm != 'sfx' and 'truthy' in known:
+        def delta(st, l, nev=nev, namee=namee, bstmts=bstmts, order=order):
+            envt, known = st
+            env = dict(zip(order, envt))
+            if l == 'GET':
+                if 'truthy' not in known:
+                    return st
+                if any(nev.verdict(alt) == 'bad' for alt in nev.ev(namee, env)):
                     return ERROR
                 return st
-            return st
+            s = bstmts[int(l[1:])]
+            if isinstance(s, ast.AugAssign):
+                if not isinstance(s.op, ast.Add):
+                    raise UnknownIdiom('augmented assignment %s' % short(s))
+                val = nev.ev(ast.BinOp(ast.Name(s.target.id, ast.Load()), ast.Add(), s.value), env)
+                tn = s.target.id
+            else:
+                val = nev.ev(s.value, env)
+                tn = s.targets[0].id if isinstance(s, ast.Assign) else s.target.id
+            env[tn] = val
+            return (tuple(env.get(k) for k in order), known)
 
         def edge_delta(st, a, b, l):
             n = cfg.node(a)
             if n.kind == 'test' and l in ('T', 'F'):
-                name, known = st
+                envt, known = st
                 poss = _suffix_classes(n.ast, l == 'T', suffix)
                 new = known & poss
                 if not new:
                     return None
-                return (name, new)
+                return (envt, new)
             return st
 
-        cex, nst, ntr = flow.typestate(cfg, lab, delta, ('unset', frozenset(('none', 'empty', 'truthy'))), edge_delta=edge_delta)
+        init = (tuple(None for _ in order), frozenset(('none', 'empty', 'truthy')))
+        cex, nst, ntr = flow.typestate(cfg, lab, delta, init, edge_delta=edge_delta)
         if cex is None:
-            run.ok('with a suffix every responder lookup uses the suffixed name (no path reaches getattr with the plain name unless the suffix is falsy)',
-                   f.loc(ga), ga)
+            run.ok("with a suffix every responder lookup uses the suffixed name: the name expression, evaluated through the locals bound on the path, "
+                   "ends in '_' + suffix whenever the suffix can be truthy", f.loc(ga), ga)
         else:
             path, st, reason = cex
-            run.fail('a responder is looked up under the unsuffixed name although a suffix was given', f, ga, witness=flow.describe_path(cfg, path),
+            run.fail("a responder is looked up under a name that does not end in '_' + suffix although a suffix was given", f, ga,
+                     witness=flow.describe_path(cfg, path),
                      runtime_witness='add_route("/x", res, suffix="items") dispatching GET to res.on_get instead of res.on_get_items')
     # sink kwargs
     d = _dispatch(run)
@@ -1996,6 +2265,198 @@ def r5_suffix_kwargs(run):
         later = [i for i in pd if i != rn and i in flow.reachable(af.cfg, [rn])]
         run.check(not later, 'params are not rebound between routing and the responder call', af.func, af.route_stmt,
                   witness=[af.cfg.node(i).text() for i in later])
+
+
+# ---------------------------------------------------------------------------
+# R12 a sink prefix that already is a pattern object is stored as it is
+# ---------------------------------------------------------------------------
+
+_PATTERN_TYPES = {'re.Pattern', 'typing.Pattern', 'typing.re.Pattern'}
+
+
+def r12_sink_prefix_identity(run):
+    """add_sink() documents two entrances for `prefix`: a regex string, or a
+    precompiled pattern object (anything with `.match`).  The matcher stored
+    in the sink table is evaluated abstractly on the two cells of that
+    partition, path by path (typestate over the CFG of add_sink; tests
+    `hasattr(prefix, 'match')` / `isinstance(prefix, str)` /
+    `isinstance(prefix, re.Pattern)` prune the cell they exclude; values:
+    the prefix object itself, re.compile(<the prefix>), its `.pattern` text,
+    re.compile(<that text>); typing.cast is the identity; locals bound on the
+    path are followed):
+      * pattern-object cell: the stored matcher IS the object handed in
+        (identity) -- re.compile(prefix.pattern) builds a different pattern
+        that has lost the flags (re.I, re.X, re.S ...) of the user's object;
+      * str cell: the stored matcher is re.compile(<the str>).
+    W: add_sink(s, re.compile('/api/(?P<section>[a-z]+)', re.I)); GET
+    /API/Users falls through to an older sink or to 404."""
+    p = run.project
+    t = _tables(run)
+    base = p.func(APP + '.add_sink')
+    funcs = [base] + [p.classes[cq].methods['add_sink'] for cq in sorted(p.subclasses(APP)) if cq != APP and 'add_sink' in p.classes[cq].methods]
+    for f in funcs:
+        if 'prefix' not in f.params():
+            raise AnchorError('%s has no `prefix` parameter' % f.qual)
+        prm = 'prefix'
+        cfg = cfg_of(f, p)
+        run.use_cfg(cfg)
+        ins = [(pol, call) for (w, pol, g, call) in t.insertions if g is f and w == SINKS]
+        if not ins:
+            if f is base:
+                raise UnknownIdiom('%s does not insert into %s itself (the stored matcher is not followed through a helper)' % (f.qual, SINKS))
+            continue
+        entries = []
+        for (pol, call) in ins:
+            if isinstance(call, ast.Call):
+                e = call.args[-1] if call.args else None
+            else:
+                v = call.value
+                lists = [x for x in ([v] if isinstance(v, (ast.List, ast.Tuple)) else [v.left, v.right] if isinstance(v, ast.BinOp) else [])
+                         if isinstance(x, (ast.List, ast.Tuple))]
+                els = [y for x in lists for y in x.elts if not isinstance(y, ast.Starred)]
+                e = els[0] if len(els) == 1 else None
+            if e is None:
+                raise UnknownIdiom('%s: inserted entry of %s' % (f.qual, short(call, 80)))
+            entries.append((call, e))
+        binds: List[ast.AST] = []
+        clobbered: Dict[int, Set[str]] = {}
+        for n in cfg.live_nodes():
+            if n.kind == 'stmt' and isinstance(n.ast, (ast.Assign, ast.AnnAssign)) and getattr(n.ast, 'value', None) is not None:
+                tg = n.ast.targets if isinstance(n.ast, ast.Assign) else [n.ast.target]
+                if len(tg) == 1 and isinstance(tg[0], ast.Name):
+                    binds.append(n.ast)
+                    continue
+            stored = {x.id for x in n.walk() if isinstance(x, ast.Name) and isinstance(x.ctx, ast.Store)} if n.kind in ('stmt', 'test', 'with') else set()
+            if n.kind == 'iter':
+                stored = {x.id for x in ast.walk(n.stmt.target) if isinstance(x, ast.Name)}
+            if n.kind == 'handler' and n.ast.name:
+                stored = {n.ast.name}
+            if stored:
+                clobbered[n.id] = stored
+
+        def ev(e, env, cell):
+            """(kind, origin text): kind in P (the prefix object) | CP (re.compile of it) | T (its .pattern text) | CT | ?"""
+            if isinstance(e, ast.Name):
+                if e.id in env:
+                    return env[e.id]
+                return ('?', e.id)
+            if isinstance(e, ast.Call):
+                q = p.resolve_expr(f.module, e.func, f)
+                if q == 're.compile' and e.args and not isinstance(e.args[0], ast.Starred):
+                    if len(e.args) > 1 or e.keywords:
+                        return ('?', short(e, 100))    # explicit flags (re.compile(p.pattern, p.flags) may well preserve them): not judged
+                    k = ev(e.args[0], env, cell)[0]
+                    return ({'P': 'CP', 'T': 'CT'}.get(k, '?'), short(e, 100))
+                if q == 'typing.cast' and len(e.args) == 2 and not e.keywords:
+                    return ev(e.args[1], env, cell)
+                if q == 'builtins.getattr' and len(e.args) in (2, 3) and isinstance(e.args[1], ast.Constant) and e.args[1].value == 'pattern' \
+                        and ev(e.args[0], env, cell)[0] == 'P':
+                    if cell == 'pat':
+                        return ('T', short(e, 100))
+                    return ev(e.args[2], env, cell) if len(e.args) == 3 else ('?', short(e, 100))
+                return ('?', short(e, 100))
+            if isinstance(e, ast.Attribute) and e.attr == 'pattern' and ev(e.value, env, cell)[0] == 'P':
+                return ('T', short(e, 100))
+            if isinstance(e, ast.IfExp):
+                r = edge_truth(e.test, True, classifier(env, cell))
+                if r is not None:
+                    return ev(e.body if r == (cell == 'pat') else e.orelse, env, cell)
+                a, b = ev(e.body, env, cell), ev(e.orelse, env, cell)
+                return a if a[0] == b[0] else ('?', short(e, 100))
+            if isinstance(e, ast.NamedExpr):
+                return ev(e.value, env, cell)
+            if isinstance(e, ast.Tuple) and e.elts and not isinstance(e.elts[0], ast.Starred):
+                return ('tuple', ev(e.elts[0], env, cell))     # an entry display bound to a local: its matcher as of the binding
+            return ('?', short(e, 100))
+
+        def classifier(env, cell):
+            # P = "the prefix is a pattern object (has .match)"
+            def classify(x):
+                if isinstance(x, ast.Call) and not x.keywords and len(x.args) == 2 and ev(x.args[0], env, cell)[0] == 'P':
+                    q = p.resolve_expr(f.module, x.func, f)
+                    if q == 'builtins.hasattr' and isinstance(x.args[1], ast.Constant) and x.args[1].value in ('match', 'pattern'):
+                        return 1
+                    if q == 'builtins.isinstance':
+                        tq = p.resolve_expr(f.module, x.args[1], f)
+                        if tq == 'builtins.str':
+                            return -1
+                        if tq in _PATTERN_TYPES:
+                            return 1
+                return 0
+            return classify
+
+        def matcher_of(e, env, cell):
+            v = ev(e, env, cell)
+            if v[0] != 'tuple':
+                raise UnknownIdiom('%s: sink entry %s is not a (matcher, sink, flag) display' % (f.qual, short(e, 80)))
+            return v[1]
+
+        names = sorted({(b.targets[0] if isinstance(b, ast.Assign) else b.target).id for b in binds} | {prm} | {x for sx in clobbered.values() for x in sx})
+
+        for (call, entry) in entries:
+            ins_nodes = [n.id for n in cfg.live_nodes() if n.ast is call or any(x is call for x in n.walk())]
+            if not ins_nodes:
+                raise UnknownIdiom('%s: insertion %s not on the CFG' % (f.qual, short(call, 60)))
+            for cell in ('pat', 'str'):
+                want = 'P' if cell == 'pat' else 'CP'
+
+                def lab(n, ins_nodes=ins_nodes):
+                    out = []
+                    if n.id in ins_nodes:
+                        out.append('INS')
+                    if n.kind == 'stmt':
+                        for i, b in enumerate(binds):
+                            if n.ast is b:
+                                out.append('S%d' % i)
+                    if n.id in clobbered:
+                        out.append('K%d' % n.id)
+                    return out
+
+                def delta(st, l, cell=cell, want=want, entry=entry):
+                    env = dict(zip(names, st))
+                    env = {k: v for k, v in env.items() if v is not None}
+                    if l == 'INS':
+                        k = matcher_of(entry, env, cell)[0]
+                        if k == want:
+                            return st
+                        if k in ('CP', 'CT') and cell == 'pat' or k == 'P' and cell == 'str':
+                            return ERROR
+                        raise UnknownIdiom('%s: matcher stored for a %s prefix is %s (not followed)' % (
+                            f.qual, 'pattern-object' if cell == 'pat' else 'str', matcher_of(entry, env, cell)[1]))
+                    if l[0] == 'S':
+                        b = binds[int(l[1:])]
+                        env[(b.targets[0] if isinstance(b, ast.Assign) else b.target).id] = ev(b.value, env, cell)
+                    else:
+                        for nm in clobbered[int(l[1:])]:
+                            env[nm] = ('?', nm)
+                    return tuple(env.get(k) for k in names)
+
+                def edge_delta(st, a, b, l, cell=cell):
+                    n = cfg.node(a)
+                    if n.kind == 'test' and l in ('T', 'F'):
+                        env = {k: v for k, v in zip(names, st) if v is not None}
+                        r = edge_truth(n.ast, l == 'T', classifier(env, cell))
+                        if r is not None and r != (cell == 'pat'):
+                            return None
+                    return st
+
+                init = tuple(('P', prm) if k == prm else None for k in names)
+                cex, _ns, _nt = flow.typestate(cfg, lab, delta, init, edge_delta=edge_delta)
+                if cell == 'pat':
+                    what = ('a prefix that already is a pattern object (has .match) is stored in the sink table as it is -- the very object, with its '
+                            'flags; it is never recompiled from its .pattern text')
+                    rw = ("add_sink(s, re.compile('/api/(?P<section>[a-z]+)', re.I)): GET /API/Users no longer reaches s (the recompiled pattern lost "
+                          're.IGNORECASE) and falls to an older sink or to 404')
+                else:
+                    what = 'a str prefix is stored as re.compile(<the str>)'
+                    rw = "add_sink(s, '/x'): the fallback scan calls .match on a str -- AttributeError (500) for every request no route matches"
+                if cex is None:
+                    run.ok(what, f.loc(call), '%s :: %s prefix' % (short(entry, 60), 'pattern-object' if cell == 'pat' else 'str'))
+                else:
+                    path, st, _reason = cex
+                    env = {k: v for k, v in zip(names, st) if v is not None}
+                    kind, origin = matcher_of(entry, env, cell)
+                    run.fail(what, f, origin, where=f.loc(call), witness=flow.describe_path(cfg, path), runtime_witness=rw)
 
 
 # ---------------------------------------------------------------------------
@@ -2661,3 +3122,4 @@ def check(run):
     run.rule('R9', r9_flavour_flag, 'the flavour flag of set_default_responders / the responder factories defaults to the WSGI flavour and every framework call site passes it', floor=6)
     run.rule('R10', r10_default_responder_signature, 'every default responder takes (req, resp, **kwargs): no named parameter a route field could bind, and the catch-all is there', floor=16)
     run.rule('R11', r11_default_responders_unconditional, 'the 404 / 400 default responders raise their error on every request (no other class can leave them), WSGI and ASGI alike', floor=10)
+    run.rule('R12', r12_sink_prefix_identity, 'a sink prefix that already is a pattern object is stored as it is (never recompiled from .pattern: the flags would be lost); a str prefix is compiled', floor=2)
